@@ -6,8 +6,10 @@ import random
 from . import net as vnet
 
 
-def scenario(rng):
-    kind = rng.choice(["wfq-str", "drr-str", "sp", "port-wire-loss", "red", "fattree"])
+def scenario(rng, stops=None, kinds=("wfq-str", "drr-str", "sp", "port-wire-loss", "red", "fattree", "hub", "switch")):
+    """stops: None = one uninterrupted run; a list = the run is split by run(until=t) / step() calls
+    (["num", t] / ["steps", n]); the trace must not depend on it (C03)"""
+    kind = rng.choice(list(kinds))
     random.seed(rng.randrange(1 << 30))
     net = vnet.Net()
     env = net.env
@@ -33,6 +35,45 @@ def scenario(rng):
         for a in arr:
             a["age"] = 0
         net.drivers(s, arr)
+    elif kind == "hub":
+        # stations with string ids on a hub; every station forwards what it hears into one shared
+        # tail-drop uplink, so the order in which the hub repeats a packet decides who is dropped
+        from onl.netdev import Hub, Port
+        names = ["alice", "bob", "carol", "dave", "erin", "frank"][: rng.randint(3, 6)]
+        uplink = Port(env, 8000.0, rng.choice([2, 3, 4]), False, "uplink")
+        uplink.out = sink
+
+        class Station:
+            def __init__(self, name):
+                self.element_id = name
+                self.out = None
+
+            def put(self, p):
+                trace.append((env.now, "rx", self.element_id, p.packet_id))
+                from onl.packet import Packet
+                uplink.put(Packet(env.now, 100, p.packet_id, src=self.element_id, flow_id=names.index(self.element_id)))
+
+        stations = [Station(n) for n in names]
+        hub = Hub(env, stations)
+
+        def talker():
+            from onl.packet import Packet
+            for i in range(rng.randint(3, 10)):
+                yield env.timeout(rng.choice([0, 0.05, 0.3]))
+                hub.put(Packet(env.now, 100, i, src=rng.choice(names), flow_id=0))
+        env.process(talker())
+    elif kind == "switch":
+        from onl.netdev import FairPacketSwitch
+        server = rng.choice(["WFQ", "DRR", "SP", "VirtualClock"])
+        nfl = rng.randint(2, 5)
+        sw = FairPacketSwitch(env, 2, 8000.0, rng.choice([3, 1000]), {f: rng.choice([1, 2, 3]) for f in range(nfl)}, server, element_id="sw")
+        sw.demux.fib = {f: f % 2 for f in range(nfl)}
+        for pt in sw.ports:
+            pt.out = sink
+        arr = vnet.gen_arrivals(rng, nfl, "float", rng.randint(10, 50), [100, 400], None, burst_p=0.5)
+        for a in arr:
+            a["age"] = 0
+        net.drivers(sw, arr)
     elif kind == "port-wire-loss":
         from onl.netdev import Port, Wire
         p = Port(env, 8000.0, rng.choice([None, 5, 10]), False, "p")
@@ -57,6 +98,23 @@ def scenario(rng):
         for n in sorted(ft.topo.nodes()):
             trace.append((0, "fib", n, tuple(sorted(ft.topo.nodes[n]["flow_to_port"].items()))))
         return kind, trace
+    if stops:
+        for st in stops:
+            if env.peek() == float("inf"):
+                break
+            if st[0] == "num":
+                if st[1] > env.now:
+                    err = net.run(until=st[1])
+                    if err:
+                        trace.append(("end", err))
+                        return kind, trace
+                    if env.now != st[1]:
+                        trace.append(("stop-at-wrong-time", st[1], env.now))
+            else:
+                for _ in range(st[1]):
+                    if env.peek() == float("inf"):
+                        break
+                    env.step()
     err = net.run()
     trace.append(("end", err))
     return kind, trace
